@@ -351,6 +351,19 @@ def sig_a(cfg, viol):
     return "totality|%s|%s@%s|cfg=%s" % (viol[0], viol[1], viol[2], cfg)
 
 
+def decode_len(text, alpha):
+    """Number of tokens of ``alpha`` whose concatenation is ``text`` (the
+    alphabet is uniquely decodable), or None."""
+    best = {0: 0}
+    for i in range(len(text)):
+        if i not in best:
+            continue
+        for tok in alpha:
+            if text.startswith(tok, i):
+                best.setdefault(i + len(tok), best[i] + 1)
+    return best.get(len(text))
+
+
 def token_lists(t):
     kind = t[1]
     if kind == "prod":
@@ -359,9 +372,20 @@ def token_lists(t):
         for rest in itertools.product(alpha, repeat=L - len(prefix)):
             yield prefix + list(rest)
     elif kind == "ranges":
-        _, _, nsl, sl = t
+        # templates that are already members of a product family are skipped,
+        # so no string is counted twice
+        _, _, nsl, sl, products = t
         for i, toks in enumerate(range_templates()):
-            if i % nsl == sl:
+            if i % nsl != sl:
+                continue
+            text = "".join(toks)
+            dup = False
+            for alpha, lo, hi in products:
+                n = decode_len(text, alpha)
+                if n is not None and lo <= n <= hi:
+                    dup = True
+                    break
+            if not dup:
                 yield toks
     else:
         raise ValueError(kind)
@@ -1029,6 +1053,9 @@ def task_pm(t, acc, seed):
                     kind, detail, nref, nv = eval_text(B, cfg, text, ref)
                     if 0 < nref < nv:
                         acc.count("distinct_nontrivial")
+                    if n == 2 and marks == ("+", "-"):
+                        acc.sample({"part": "plusminus", "cfg": cfg, "text": text,
+                                    "reading": qast.shape(ref)}, maxn=1)
                     if kind is None:
                         continue
                     # shrink: drop items while the same kind of failure persists
@@ -1072,46 +1099,38 @@ def task(t):
 
 
 def plan(tier, seed):
-    tasks = []
     info = {}
     # ---- part A
-    tasks.append((seed, "prod", FULL, 0, ()))
-    tasks.append((seed, "prod", FULL, 1, ()))
-    tasks.append((seed, "prod", FULL, 2, ()))
-    for a in FULL:
-        tasks.append((seed, "prod", FULL, 3, (a,)))
-    nr = 8
-    for sl in range(nr):
-        tasks.append((seed, "ranges", nr, sl))
+    small_a = [(seed, "prod", FULL, 0, ()), (seed, "prod", FULL, 1, ()),
+               (seed, "prod", FULL, 2, ())]
+    l3 = [(seed, "prod", FULL, 3, (a,)) for a in FULL]
+    products = [(FULL, 0, 3)]
     if tier == "quick":
         r4 = reduced(seed, 17)
-        for a in r4:
-            for b in r4:
-                tasks.append((seed, "prod", r4, 4, (a, b)))
+        big = [(seed, "prod", r4, 4, (a, b)) for a in r4 for b in r4]
+        products.append((r4, 4, 4))
         info["totality"] = {"alphabet_full": FULL, "max_tokens_full": 3,
                             "alphabet_reduced": r4, "max_tokens_reduced": 4}
     else:
         r4 = reduced(seed, 28)
-        for a in r4:
-            for b in r4:
-                tasks.append((seed, "prod", r4, 4, (a, b)))
+        big = [(seed, "prod", r4, 4, (a, b)) for a in r4 for b in r4]
         r5 = reduced(seed, 11)
-        for a in r5:
-            for b in r5:
-                for c in r5:
-                    tasks.append((seed, "prod", r5, 5, (a, b, c)))
+        big += [(seed, "prod", r5, 5, (a, b, c)) for a in r5 for b in r5 for c in r5]
+        products += [(r4, 4, 4), (r5, 5, 5)]
         info["totality"] = {"alphabet_full": FULL, "max_tokens_full": 3,
                             "alphabet_reduced": r4, "max_tokens_reduced": 4,
                             "alphabet_reduced_5": r5, "max_tokens_reduced_5": 5}
+    nr = 8
+    ranges = [(seed, "ranges", nr, sl, products) for sl in range(nr)]
     # ---- part B
-    tasks.append((seed, "meaning", "e1", tier, 1, 0))
-    for fam, n in (("e2", 16 if tier == "quick" else 40),
-                   ("e3", 27 if tier == "quick" else 108),
-                   ("e4", 24 if tier == "quick" else 216)):
-        for c in range(n):
-            tasks.append((seed, "meaning", fam, tier, n, c))
-    tasks.append((seed, "plusminus"))
-    tasks = [t for t in tasks if t is not None]
+    fam = {}
+    for f, n in (("e2", 16 if tier == "quick" else 40),
+                 ("e3", 27 if tier == "quick" else 108),
+                 ("e4", 24 if tier == "quick" else 216)):
+        fam[f] = [(seed, "meaning", f, tier, n, c) for c in range(n)]
+    # simplest first, the two parts interleaved
+    tasks = (small_a + [(seed, "meaning", "e1", tier, 1, 0), (seed, "plusminus")] + l3
+             + ranges + fam["e2"] + fam["e3"] + big + fam["e4"])
     return tasks, info
 
 
@@ -1127,6 +1146,9 @@ def run(ctx):
             n += 1
     if len(strs) != n:
         raise core.HarnessError("token alphabet is ambiguous: %d strings from %d sequences" % (len(strs), n))
+    rt = ["".join(t) for t in range_templates()]
+    if len(set(rt)) != len(rt):
+        raise core.HarnessError("range templates repeat")
     tasks, info = plan(ctx.tier, seed)
     ctx.extra.update(info)
     ctx.extra["parser_configurations_totality"] = CFGS_A
